@@ -64,11 +64,26 @@ def on_publish(h: Any, ev: Any, adapter: Any) -> None:
                   f"{how} published while {sorted(b for b in set(busy) if b[0] == cat)}")
 
 
+def on_tick(h: Any, tick: Any, adapter: Any) -> None:
+    """a wake-up the loop scheduled itself (retry delay, waiter timeout, run timeout) is delivered when it is due:
+    timers fire exactly on the virtual clock, so any lateness means the loop slept past due work"""
+    import time as _t
+
+    rec = h.scheduled_due.get(id(tick))
+    if rec is None or rec[1] is not tick or h.spec.time_depth != 1 or h.spec.pair_time:
+        return
+    late = _t.time() - rec[0]
+    if late > 1e-6 and isinstance(tick, TickAddEvent):
+        h.violate("scheduled_retry_delivered_late", {"step_kind": kind(tick.step_name or "")},
+                  f"retry of {tick.step_name} was due at +{rec[0] - h.loop.base_wall:.3f}s but was delivered {late:.3f}s later: "
+                  f"the loop slept past a due wake-up while the step had free capacity")
+
+
 def observe(h: Any, e: Any, state: dict[str, Any]) -> Any:
     return {"idle_announcements": getattr(h, "idle_announcements", 0)}
 
 
-ORACLE = Oracle(on_quiescent=on_quiescent, on_publish=on_publish, observe=observe)
+ORACLE = Oracle(on_quiescent=on_quiescent, on_publish=on_publish, on_tick=on_tick, observe=observe)
 
 
 def wf_return_then_idle() -> type:
@@ -115,7 +130,7 @@ def specs(tier: str) -> list[Spec]:
 RULE = ("all schedules (gate releases, external sends, timer firings) of the engine catalog plus idle-specific "
         "programs; at the instant an idle announcement is written to the stream the runner's queues, in-progress "
         "sets, pending-retry heap, tick buffer and mailbox are inspected; work conservation is checked in every "
-        "quiescent live state; non-trivial = at least one deviation from the default schedule")
+        "quiescent live state; every retry wake-up is delivered at the virtual instant it was scheduled for; non-trivial = at least one deviation from the default schedule")
 
 
 def programs(tier: str) -> list[Any]:
